@@ -28,7 +28,9 @@ impl<F: Field> PolynomialCoeffs<F> {
             let rev_q: Self = (&rev_b_inv * &rhs).coeffs[..=a_degree_plug_1 - b_degree_plus_1]
                 .to_vec()
                 .into();
-            let mut q = rev_q.rev();
+            // `rev_q` has exactly `deg(a) - deg(b) + 1` coefficients; reverse all of them. `rev()`
+            // would trim first and thereby drop the zero low-order coefficients of the quotient.
+            let mut q: Self = rev_q.coeffs.into_iter().rev().collect::<Vec<_>>().into();
             let qb = &q * b;
             let mut r = self - &qb;
             q.trim();
